@@ -298,6 +298,9 @@ def write_evidence(cfg, tier, seed, runs, wall, violations, extra_notes=None, fu
         "fault_cases": faults,
         "per_test": per_test,
         "processes": len(runs),
+        "excluded_known": sum(d.get("excluded_known", 0) for d in per_test.values()),
+        "known_findings_listed": [k["signature"]["class"] for k in known_findings()
+                                  if k.get("property") == cfg["id"] and k.get("status") == "known"],
         "notes": notes + (extra_notes or []),
     }
     if any(d.get("exhaustive") for d in per_test.values()):
